@@ -571,15 +571,28 @@ fn gen_history(rng: &mut SplitMix, focus: &str) -> History {
     }
     let n_src = 1 + rng.usize(6);
     let mut sources = Vec::new();
+    // the sources of one history differ in ONE octet / segment whose position varies from history to history
+    // (a key comparison that looks at part of the address only must not go unnoticed)
+    let (pos4, pos6) = (rng.usize(4), rng.usize(8));
+    let v4_of = |i: u8| {
+        let mut o = [10u8, 0, 0, 1];
+        o[pos4] = if pos4 == 0 { 11 + i } else { 1 + i };
+        Ipv4Addr::new(o[0], o[1], o[2], o[3])
+    };
+    let v6_of = |i: u16| {
+        let mut g = [0xfd00u16, 0, 0, 0, 0, 0, 0, 1];
+        g[pos6] = if pos6 == 0 { 0xfd00 + i } else { 1 + i };
+        Ipv6Addr::new(g[0], g[1], g[2], g[3], g[4], g[5], g[6], g[7])
+    };
     for i in 0..n_src {
         let kind = rng.below(10);
         let ip: IpAddr = if kind < 4 {
-            IpAddr::V4(Ipv4Addr::new(10, 0, 0, 1 + i as u8))
+            IpAddr::V4(v4_of(i as u8))
         } else if kind < 7 {
-            IpAddr::V6(Ipv6Addr::new(0xfd00, 0, 0, 0, 0, 0, 0, 1 + i as u16))
+            IpAddr::V6(v6_of(i as u16))
         } else {
             // IPv4-mapped: must collide with the plain IPv4 peer of the same number
-            IpAddr::V6(Ipv4Addr::new(10, 0, 0, 1 + rng.below(n_src as u64) as u8).to_ipv6_mapped())
+            IpAddr::V6(v4_of(rng.below(n_src as u64) as u8).to_ipv6_mapped())
         };
         sources.push(ip.to_string());
     }
